@@ -254,9 +254,10 @@ class MultiCtl(BaseMultiCtl, Module):
                 "Only one MultiCtl mapping per destination module allowed"
             )
         gain = list(gains).pop() if gains and len(gains) == 1 else 256
-        bundle = project.new_module(
-            MultiCtl, name=name, layer=layer, x=x, y=y, gain=gain, mappings=mappings
-        )
+        kwargs = dict(layer=layer, x=x, y=y, gain=gain, mappings=mappings)
+        if name is not None:
+            kwargs["name"] = name
+        bundle = project.new_module(MultiCtl, **kwargs)
         bundle >> mods
         if initial is not None:
             bundle.value = initial
